@@ -114,6 +114,6 @@ fn compile_one(p2: &std::path::Path, src: &str, dumps: bool, core_json: bool, ir
     }
 }
 
-pub fn ir_export(_c: &compiler::pipeline::pipeline::Compilation) -> Value {
-    Value::Null
+pub fn ir_export(c: &compiler::pipeline::pipeline::Compilation) -> Value {
+    crate::ir_export::ir_export(c)
 }
